@@ -1415,19 +1415,16 @@ fn scripted_block(chain: bool, many_ta: bool) -> Vec<Op> {
     let mut ops = vec![];
     if many_ta {
         // a dozen proxy <-> signer exchanges before the first snapshot: the
-        // trust anchor's child gets an AS number nobody below it uses, and
-        // loses it again, and calls in each time. The signer's and the
-        // proxy's histories of exchanges grow beyond any "recent ones" limit
-        // before the snapshot job runs.
+        // signer's and the proxy's records of exchanges grow beyond any
+        // "recent ones" limit before the snapshot job runs.
         let top = if chain { "top" } else { "p1" };
-        for i in 0..12 {
-            ops.push(Op::ChildUpdate {
-                parent: "ta".into(), child: top.into(),
-                asn: if i % 2 == 0 { "AS65000-AS65011".into() }
-                     else { "AS65000-AS65010".into() },
-                v4: "10.0.0.0/8".into(), v6: "2001:db8::/32".into(),
-            });
-            ops.push(Op::SyncParent { ca: top.into() });
+        // (a trust anchor's child cannot be given other resources through
+        // the API; each complete key roll of the child is two exchanges:
+        // the new key's certificate and the old key's revocation)
+        for _ in 0..5 {
+            ops.push(Op::RollInit { ca: top.into() });
+            ops.push(Op::Quiesce);
+            ops.push(Op::RollActivate { ca: top.into() });
             ops.push(Op::Quiesce);
         }
     }
@@ -1502,7 +1499,7 @@ fn run_history(
     let mut script = if chain { hist::chain_forest() }
         else { hist::standard_forest(true) };
     let n_setup = script.len();
-    script.extend(scripted_block(chain, idx % 2 == 1));
+    script.extend(scripted_block(chain, idx % 3 == 1));
     let total = script.len() + n_random;
 
     // comparison points and points where the monitor lets krill's own
